@@ -13,6 +13,15 @@ CLAIMED = {
        "UTF-16/UCS-4/single-byte tables/encoding sniffing: see DESIGN status table; ICU encodings not modelled.",
   technique="Lean 4 proof over translator-generated tables + model/implementation correspondence",
   ref="4/C05"),
+ "C11": dict(
+  text="Lean 4 theorems: every RangeToken operation (addRange, sort/compact, merge, subtract, intersect, complement, match) of a "
+       "code-shaped model equals its set operation for all tokens satisfying the stated invariant (unbounded); Brzozowski-derivative matcher "
+       "= language semantics for all expressions and strings; XSD quantifier semantics. The real RangeToken is tied by operation-history "
+       "correspondence (judged by set algebra), the real engine by comparison with the proved matcher on all short strings.",
+  note="Trusted: Lean kernel + std axioms; Spec (Matches) as transcribed; Python renderer of regex ASTs to XSD syntax; harness. The backtracking "
+       "engine itself, options i/s/m/x, tokenize/replace, category tables are not modelled (correspondence only) - partial.",
+  technique="Lean 4 proof (range algebra refinement, derivative matcher) + model/implementation correspondence",
+  ref="4/C11"),
 }
 
 def main():
